@@ -1001,6 +1001,19 @@ func checkSliceSite(c *Ctx, f *ssa.Function, x *ssa.Slice, covered, lexMin map[t
 			why = w
 		}
 	}
+	if why == "" {
+		// a bound computed from the operand's own length (s[:len(s)-k]): in range exactly when 0 <= k <= len(s), which is an
+		// invariant of the data (the height of an LR stack against the length of a handle), not something a guard shows
+		for _, bv := range []ssa.Value{x.Low, x.High} {
+			if bo, ok := bv.(*ssa.BinOp); ok && bo.Op == token.SUB {
+				if call, ok := bo.X.(*ssa.Call); ok {
+					if bi, ok := call.Call.Value.(*ssa.Builtin); ok && bi.Name() == "len" && sameSliceValue(call.Call.Args[0], x.X) {
+						why = "it is computed from the length of the operand itself"
+					}
+				}
+			}
+		}
+	}
 	if why != "" {
 		c.Undecided("R14.2", key, x.Pos(), "the bounds are guarded ("+why+") but no rule connects the guard to the length of the operand")
 		return
@@ -2774,4 +2787,15 @@ func minLenOf(v ssa.Value, seen map[ssa.Value]bool, depth int) int64 {
 		return best
 	}
 	return -1
+}
+
+
+// sameSliceValue: two SSA values that denote the same slice at this point: identical, or two loads of the same local cell.
+func sameSliceValue(a, b ssa.Value) bool {
+	if a == b {
+		return true
+	}
+	la, ok1 := a.(*ssa.UnOp)
+	lb, ok2 := b.(*ssa.UnOp)
+	return ok1 && ok2 && la.Op == token.MUL && lb.Op == token.MUL && la.X == lb.X
 }
